@@ -96,6 +96,21 @@ Fixpoint init_bytes (t : ty) (kind : Z) {struct t} : out (list Z) :=
       end
   end.
 
+(* Enums.  The generated impls (star_frame_proc/src/unsize/enum_impl.rs):
+     503-553  UnsizedInit<DefaultInit> exists only when one variant carries #[default_init]; INIT_BYTES = size_of discriminant
+              + the variant's INIT_BYTES (0 for a unit variant); init = the discriminant of THAT variant (little endian),
+              then the variant's own DefaultInit.  The universe `ty` has no marker for the #[default_init] variant: the
+              convention (kept by the harness descriptors, harness/src/shapes.rs enum_node!) is that it is the FIRST
+              listed variant of `TEnum rw vs` (vs is an association list keyed by discriminant, its order means nothing
+              else), which is what init_size / init_bytes above initialise.
+     555-646  UnsizedInit<EnumInitVariant<I>> for every variant: INIT_BYTES = size_of discriminant + the variant's
+              INIT_BYTES for I; init = that variant's discriminant, then the variant's init with I.
+     733-764  set_<variant>(init) = set_from_init(EnumInitVariant(init)) (wrapper.rs set_data_inner: resize at the enum's
+              start pointer, initialise, re-derive the whole StartPointer with get_ptr), then the payload's wrapper. *)
+Definition init_variant_size (rw : nat) (vt : ty) (kind : Z) : Z := Z.of_nat rw + init_size vt kind.
+Definition init_variant (rw : nat) (d : Z) (vt : ty) (kind : Z) : out (list Z) :=
+  do b <- init_bytes vt kind; Ok (le_bytes rw d ++ b).
+
 (* ---------------------------------------------------------------------------------------------- *)
 Definition res := (mach * ptr * list Z)%type.
 
